@@ -19,7 +19,7 @@ ProtoCases == [kind : {"proto"}, g : UNION {[1..n -> Grp] : n \in 0..3}]
 TsCases == [kind : {"ts"}, c : {"empty", "rfc_sec", "rfc_nanos", "rfc_offset", "unix_ms", "garbage", "negative_ms"}]
 DurCases == [kind : {"dur"}, c : {"empty", "hms", "frac", "negative", "zero", "garbage", "nounit"}]
 UrlCases == [kind : {"url"}, c : {"empty", "http", "query_frag", "badescape", "space", "onlyscheme", "relative"}]
-TaCases == [kind : {"tptaddr"}, c : {"ok", "noid", "noaddr", "nodelim", "twodelim", "empty"}]
+TaCases == [kind : {"tptaddr"}, c : {"ok", "noid", "noaddr", "nodelim", "twodelim", "empty", "wsid", "wsaddr"}]   \* wsid / wsaddr: a component of white space only
 Entry == {"p1a1", "p1a2", "p2a1", "p1a1ws", "p1short", "badpeer", "emptyentry"}
 PamCases == [kind : {"pam"}, g : UNION {[1..n -> Entry] : n \in 0..3}]
 PeerOf(e) == IF e \in {"p1a1", "p1a2", "p1a1ws"} THEN "p1" ELSE IF e = "p2a1" THEN "p2" ELSE "none"
@@ -32,7 +32,8 @@ Expected(c) ==
     [] c.kind = "ts" -> [accept |-> c.c \in {"empty", "rfc_sec", "rfc_nanos", "rfc_offset", "unix_ms", "negative_ms"}, roundtrip |-> TRUE]
     [] c.kind = "dur" -> [accept |-> c.c \in {"empty", "hms", "frac", "negative", "zero"}, roundtrip |-> TRUE]
     [] c.kind = "url" -> [accept |-> c.c \notin {"badescape", "space"}, roundtrip |-> TRUE]
-    [] c.kind = "tptaddr" -> [accept |-> c.c \in {"ok", "twodelim"}]
+    \* a white-space-only component may be refused or kept as it is ("dc"), but an accepted address never has an empty component and re-parses to itself
+    [] c.kind = "tptaddr" -> [accept |-> IF c.c \in {"wsid", "wsaddr"} THEN "dc" ELSE c.c \in {"ok", "twodelim"}]
     [] c.kind = "pam" -> [p1 |-> Pam(c.g)["p1"], p2 |-> Pam(c.g)["p2"], errs |-> PamErrs(c.g)]
 VARIABLE c
 Init == c \in Cases
